@@ -60,6 +60,11 @@ def build_lean(targets):
     """lake build of the given targets (module names or `driver`). Returns (ok, log)."""
     with Lock():
         rc, out, err = sh(["lake", "build"] + list(targets), cwd=LEAN, timeout=3600)
+        if rc != 0 and not re.search(r"\.lean:\d+:\d+: error|error: .*\.lean:\d+", out + err):
+            # not a Lean error in a source file (a crashed compiler/linker process, a vanished object file while another
+            # build was running): one more attempt
+            time.sleep(5)
+            rc, out, err = sh(["lake", "build"] + list(targets), cwd=LEAN, timeout=3600)
     return rc == 0, (out + err)
 
 
